@@ -970,7 +970,13 @@ func (e *Engine) makeRange(x Value) Value {
 func (e *Engine) next(it *rangeIter, in *ssa.Next) Value {
 	tup := in.Type().(*types.Tuple)
 	if it.pos >= len(it.entries) {
-		return TupleV{e.tt.Bool(false), e.zero(tup.At(1).Type()), e.zero(tup.At(2).Type())}
+		z := func(t types.Type) Value {
+			if b, ok := t.(*types.Basic); ok && b.Kind() == types.Invalid {
+				return nil
+			}
+			return e.zero(t)
+		}
+		return TupleV{e.tt.Bool(false), z(tup.At(1).Type()), z(tup.At(2).Type())}
 	}
 	en := it.entries[it.pos]
 	it.pos++
